@@ -432,8 +432,8 @@ func (w *binaryWriter) Finish() error {
 		}
 
 		lst := w.lstb.Build()
-		if err := w.writeLST(lst); err != nil {
-			return err
+		if w.err = w.writeLST(lst); w.err != nil {
+			return w.err
 		}
 		if w.err = w.emit(seq); w.err != nil {
 			return w.err
